@@ -200,6 +200,17 @@ class Run:
             f = io.BytesIO(blobs[idx])
             f.seek(min(offset, len(blobs[idx])))
             return f, f
+        if kind == "gzip":
+            # a buffered stream whose NAMED file (the .gz) has another size than the bytes it yields
+            import gzip
+            gz = paths[idx] + ".gz"
+            if not os.path.isfile(gz):
+                with gzip.open(gz, "wb") as g:
+                    g.write(blobs[idx])
+            f = gzip.GzipFile(gz, "rb")
+            f.seek(min(offset, len(blobs[idx])))
+            self.open_streams.append(f)
+            return f, f
         if kind == "bufreader":
             f = io.BufferedReader(io.BytesIO(blobs[idx]))
             f.seek(min(offset, len(blobs[idx])))
